@@ -575,6 +575,12 @@ def run(ctx):
     run_split(ctx, drv, treq, ctx.rng('split'), 40 if quick else 400, 2 if quick else 8)
     # streams with table definition messages under filters (F25): implementation-only oracle
     DS.run(ctx, ctx.rng('defstreams'), 6 if quick else 80, cont_values=(False,))
+    # --- w5-c09cli (begin): `decode -m -j --filter E` through pybufrkit.main() prints exactly the messages E selects (= the API scan
+    # with filter_expr = the unfiltered run restricted by each message's own metadata), also on tests/data/prepbufr.bufr for filters
+    # that reject / accept its table definition messages (harness/cli_io.py glue_stream)
+    from harness.props import c09cli
+    c09cli.run_stream_glue(ctx, ('filter', 'prepbufr'), 2 if quick else 20)
+    # --- w5-c09cli (end)
 
 
 def replay(ctx, path):
@@ -584,6 +590,9 @@ def replay(ctx, path):
     if rep.get('defstream'):
         DS.replay(ctx, rep)
         return
+    if rep.get('cli_stream'):   # w5-c09cli
+        from harness.props import c09cli
+        return c09cli.replay_stream_glue(ctx, rep)
     drv = ctx.driver
     if 'undischarged' in rep:
         print('replay: proof obligation; re-run ./check C11')
